@@ -290,12 +290,13 @@ def gen_case(rng, tier):
     for _ in range(nroots):
         t.add_root()
     malformed = rng.random() < 0.45
+    kind = None
     for r in list(t.roots):
         for _ in range(rng.choice([1, 2, 2, 3, 4])):
             t.add_file(r)
     bad_files = []
     if malformed:
-        kind = rng.choice(["number", "number", "short", "range", "dots", "suffix", "dir", "rootname", "nested"])
+        kind = rng.choice(["number", "number", "short", "range", "dots", "suffix", "dir", "rootname", "nested", "hostile", "hostile"])
         if kind in ("number", "short", "range", "dots", "suffix"):
             host = rng.choice(t.roots) if rng.random() < 0.5 else (t.add_root() or t.roots[0])
             bf = t.add_file(host, bad=kind)
@@ -312,6 +313,17 @@ def gen_case(rng, tier):
                 bf = t.add_file(r)
                 if bf:
                     bad_files.append(bf)
+        elif kind == "hostile":
+            # a random basename over the characters that matter, in a directory of its own (no name can collide)
+            host = rng.choice(t.roots) + ["hz%d" % rng.randrange(10)]
+            alphabet = "AbZ_019..  +-" + "\u0661\uff11\u00b2\u212a\u00c4\t"
+            nm = "".join(rng.choice(alphabet) for _ in range(rng.randrange(1, 10)))
+            if rng.random() < 0.8:
+                nm += rng.choice([".1.0.dsdl", ".dsdl", ".0.1.uavcan", "1.0.dsdl", ".7.dsdl"])
+            if nm not in (".", "..") and not any(f["p"][:len(host)] == host for f in t.files):
+                bf = {"p": host + [nm], "svc": rng.random() < 0.2}
+                t.files.append(bf)
+                bad_files.append(bf)
         else:
             r = t.add_root(nested_in=rng.choice(t.roots))
             if r:
@@ -323,7 +335,7 @@ def gen_case(rng, tier):
         t.files.append({"p": host + long_dirs + [name], "svc": svc})
     if rng.random() < 0.2:
         t.extra_dirs.append(rng.choice(t.roots) + ["empty_dir"])
-    case = {"files": t.files, "dirs": t.extra_dirs, "calls": []}
+    case = {"files": t.files, "dirs": t.extra_dirs, "calls": [], "meta": {"planted": kind if malformed else "none"}}
     dirs = [list(d) for d in all_dirs(case)]
     files_by_root = {}
     for f in t.files:
@@ -348,6 +360,8 @@ def gen_case(rng, tier):
     for gi in range(ngroups):
         nf = rng.choice([1, 1, 1, 2, 3])
         chosen = rng.sample(t.files, min(nf, len(t.files)))
+        if bad_files and gi == 0 and rng.random() < 0.7:
+            chosen = [bad_files[0]] + [f for f in chosen if f is not bad_files[0]][:nf - 1]
         pairs = []      # (file path, its root = the innermost known root around it)
         for f in chosen:
             rs = [r for r in t.roots if f["p"][:len(r)] == r and len(f["p"]) > len(r)]
@@ -727,7 +741,7 @@ def nontrivial(case, obs):
 
 
 def describe(case, obs):
-    keys = ["files=%d" % min(len(case["files"]), 12), "calls=%d" % min(len(case["calls"]), 16),
+    keys = ["planted:" + case.get("meta", {}).get("planted", "corpus"), "files=%d" % min(len(case["files"]), 12), "calls=%d" % min(len(case["calls"]), 16),
             "depth-below-root<=%d" % min(max(len(f["p"]) for f in case["files"]) - 2, 6)]
     for c, ob in zip(case["calls"], obs["calls"]):
         keys.append("call:%s:%s" % (c["api"], ob["r"]))
